@@ -72,7 +72,8 @@ def check_reader(rep, g, build):
     s = g.sr
     R = g.R
     # C08.c
-    asserts = [c for c in s.calls if c.name == "__assert_fail"]
+    from .io_array import dead
+    asserts = [c for c in s.calls if c.name == "__assert_fail" and not dead(c.cond)]       # an assertion behind a test that already established it cannot fail
     if asserts:
         rep.fail("C08.c", inst, ir.where(asserts[0].inst), "an assertion can fail while reading (abort instead of exception)")
     else:
@@ -158,17 +159,17 @@ def check_reader(rep, g, build):
                 for run_, off, const in words:
                     k, rel = io.run_read_at(run_, off)
                     wi = "%s word@%d%s" % (inst, off if run_ is first and off < 8 * nfr else run_["bytes"] - off, "" if run_ is first and off < 8 * nfr else " from end")
-                    if k is None or rel != 0:
-                        rep.fail("C08.e", wi, file, "framing word is not read as one 4-byte word")
+                    if k is None:
+                        rep.undecided("C08 %s: a framing word straddles two stream reads; not decided" % wi)
                         good = False
                         continue
                     call = next(c for (o, sz, c) in run_["parts"] if c.n == k)
-                    if not io.eq_literal(lits, k, const):
+                    wlits = io.eq_literal(lits, k, const, rel)
+                    if not wlits:
                         rep.fail("C08.d", wi, ir.where(call.inst), "the word read here is not required to equal 0x%08X" % const)
                         good = False
                         continue
-                    lit = next(l for l in lits if l[0] == 'cmp' and l[1] == 'eq' and ((l[2][0] == 'wr' and l[2][1] == k) or (l[3][0] == 'wr' and l[3][1] == k)))
-                    if not any(ir.mk_not(lit) in tl or ir.occurs_positive(tc, ir.mk_not(lit)) for tl, tc in zip(throw_lits, [c.cond for c in throws])):
+                    if not all(any(ir.mk_not(lit) in tl or ir.occurs_positive(tc, ir.mk_not(lit)) for tl, tc in zip(throw_lits, [c.cond for c in throws])) for lit in wlits):
                         rep.fail("C08.d", wi, ir.where(call.inst), "a wrong word here does not lead to a throw")
                         good = False
         if good:
@@ -184,7 +185,7 @@ def run(rep, tier):
         for g in gs:
             if g.hr.error is None and not g.ok:
                 # writer failed; reader facts are still needed
-                g.sr = ir.Sym(g.hr.func, epochs=True)
+                g.sr = io.normalise_throws(ir.Sym(g.hr.func, epochs=True), g.hr.module)
                 g.R = io.reader_items(g.sr)
                 g.Rc = io.canon(g.R)
                 g.outs = {k: ir.ungate(v) for k, v in g.sr.outputs(g.hr.out_index).items()}
